@@ -559,8 +559,11 @@ def clip_native_to_wngrid(native_grid, wngrid):
     max_wngrid = wngrid.max()
     #Compute the maximum width
     wnwidths = compute_bin_edges(wngrid)[-1]
-    wn_min = min_wngrid - wnwidths.max()
-    wn_max = max_wngrid + wnwidths.max()
+    # Keep a margin of two bin widths: the width FluxBinner derives for the
+    # outermost kept native point changes when its neighbour is clipped, so
+    # that point must lie beyond every native bin overlapping an observed bin
+    wn_min = min_wngrid - 2*wnwidths.max()
+    wn_max = max_wngrid + 2*wnwidths.max()
 
     native_filter = (native_grid >= wn_min) & (native_grid <= wn_max)
     return native_grid[native_filter]
